@@ -54,6 +54,20 @@ impl Sha256 {
     pub fn finalize(self) -> (r: Sha256Output)
         ensures r@ == H(self@), r@.len() == 32,
     { unimplemented!() }
+
+    /// `Digest::chain_update(data)` (digest-0.10.7 src/digest.rs: "Process input
+    /// data in a chained manner" = `update` returning the hasher).
+    #[verifier::external_body]
+    pub fn chain_update<B: BytesLike>(self, data: B) -> (r: Sha256)
+        ensures r@ == self@ + data.bytes(),
+    { unimplemented!() }
+
+    /// `Digest::digest(data)` (digest-0.10.7 src/digest.rs: "Compute hash of
+    /// `data`" = `new`, `update(data)`, `finalize`).
+    #[verifier::external_body]
+    pub fn digest<B: BytesLike>(data: B) -> (r: Sha256Output)
+        ensures r@ == H(data.bytes()), r@.len() == 32,
+    { unimplemented!() }
 }
 impl Sha256Output {
     #[verifier::external_body]
@@ -67,6 +81,8 @@ impl Sha256Output {
     { unimplemented!() }
 }
 impl BytesLike for Sha256Output { open spec fn bytes(&self) -> Seq<u8> { self@ } }
+/// `Vec<u8>` passed by value where `impl AsRef<[u8]>` is expected
+impl BytesLike for Vec<u8> { open spec fn bytes(&self) -> Seq<u8> { self@ } }
 
 /// `sos_core::commit::CommitTree::hash(data)` = rs_merkle `Sha256::hash(data)`
 /// (crates/core/src/commit/tree.rs:26, rs_merkle-1.5.0 src/algorithms/sha256.rs:
@@ -113,6 +129,14 @@ pub mod hex {
         ensures r@ == hex_enc(data.bytes()),
     { unimplemented!() }
 
+    /// upper-case hexadecimal text (`encode_upper`), uninterpreted: a different
+    /// text from `hex_enc` in general (no relation is assumed)
+    pub uninterp spec fn hex_enc_upper(b: Seq<u8>) -> Seq<char>;
+    #[verifier::external_body]
+    pub fn encode_upper<T: BytesLike>(data: T) -> (r: String)
+        ensures r@ == hex_enc_upper(data.bytes()),
+    { unimplemented!() }
+
     #[verifier::external_body]
     pub fn decode(data: &str) -> (r: core::result::Result<Vec<u8>, FromHexError>)
         ensures
@@ -128,6 +152,12 @@ pub use hex::{hex_enc, hex_dec, FromHexError, axiom_hex_roundtrip, axiom_hex_alp
 pub fn slice_ne(a: &[u8], b: &[u8]) -> (r: bool)
     ensures r == (a@ != b@),
 { a != b }
+
+/// R12: `$a == $b` for `$a, $b: &[u8]` (core::slice::cmp PartialEq: element-wise).
+#[verifier::external_body]
+pub fn slice_eq(a: &[u8], b: &[u8]) -> (r: bool)
+    ensures r == (a@ == b@),
+{ a == b }
 
 /// R12: `$a == $b` for `$a, $b: &[u8; 32]` (core::array::equality: element-wise).
 #[verifier::external_body]
